@@ -125,6 +125,27 @@ func newSorts() *Sorts {
 	return theSorts
 }
 
+// heapTypeAxiom: every cell of heap constant h satisfies its type invariant w.r.t. allocator top.
+func (ss *Sorts) heapTypeAxiom(key, h, top string) string {
+	t, ok := ss.heapElem[key]
+	if !ok {
+		return ""
+	}
+	rows := strings.HasPrefix(key, "HS_")
+	cell := "(select " + h + " r)"
+	if rows {
+		cell = "(select (select " + h + " r) k)"
+	}
+	f := ss.rangeFact(t, cell, top)
+	if f == "true" {
+		return ""
+	}
+	if rows {
+		return "(forall ((r Int) (k Int)) (! (=> (<= r " + top + ") " + f + ") :pattern (" + cell + ")))"
+	}
+	return "(forall ((r Int)) (! (=> (<= r " + top + ") " + f + ") :pattern (" + cell + ")))"
+}
+
 // heapInitAxiom: every cell of the initial heap satisfies its type invariant (integer ranges,
 // slice header sanity, pointers below the initial allocator top).
 func (ss *Sorts) heapInitAxiom(key, h string) string {
@@ -143,10 +164,11 @@ func (ss *Sorts) heapInitAxiom(key, h string) string {
 	if f == "true" {
 		return ""
 	}
+	// only objects that exist at function entry: contents of not-yet-allocated roots are unconstrained
 	if rows {
-		return "(forall ((r Int) (k Int)) (! " + f + " :pattern (" + cell + ")))"
+		return "(forall ((r Int) (k Int)) (! (=> (<= r top_0) " + f + ") :pattern (" + cell + ")))"
 	}
-	return "(forall ((r Int)) (! " + f + " :pattern (" + cell + ")))"
+	return "(forall ((r Int)) (! (=> (<= r top_0) " + f + ") :pattern (" + cell + ")))"
 }
 
 func sanitize(s string) string {
